@@ -304,14 +304,22 @@ pub fn name_string(n: &[u8; 11]) -> String {
 
 impl Fmt {
     pub fn new(g: Geom, rng: Rng) -> Fmt {
-        let mut img = Image::new(g.nblocks());
-        // backgrounds: everything outside the partition (except the MBR) is canary;
-        // metadata regions zero; data area "previously used" junk
-        if g.part_start > 1 {
-            img.regions.push(Region { start: 1, end: g.part_start, bg: Bg::Canary });
+        Fmt::new_into(g, rng, None)
+    }
+
+    /// Format a partition into an existing device image (multi-volume devices). The caller
+    /// chooses non-overlapping `part_start` values.
+    pub fn new_into(g: Geom, rng: Rng, existing: Option<Image>) -> Fmt {
+        let mut img = existing.unwrap_or_else(|| Image::new(g.nblocks()));
+        if img.nblocks < g.nblocks() {
+            img.nblocks = g.nblocks();
         }
+        // backgrounds (first match wins): this partition's metadata zero, its data area
+        // "previously used" junk, everything else on the device (except the MBR) canary
+        img.regions.retain(|r| !(r.bg == Bg::Canary && r.start == 1));
+        img.regions.push(Region { start: g.part_start, end: g.data_start(), bg: Bg::Zero });
         img.regions.push(Region { start: g.data_start(), end: g.data_start() + g.clusters * g.spc + g.tail, bg: Bg::Junk });
-        img.regions.push(Region { start: g.part_end(), end: g.nblocks(), bg: Bg::Canary });
+        img.regions.push(Region { start: 1, end: u32::MAX, bg: Bg::Canary });
         let fat = vec![0u32; (g.clusters + 2) as usize];
         let mut f = Fmt { g, img, fat, dirs: Vec::new(), placed: Vec::new(), rng, stamp: 0 };
         f.write_mbr();
@@ -334,7 +342,8 @@ impl Fmt {
 
     fn write_mbr(&mut self) {
         let g = self.g.clone();
-        let mut m = [0u8; 512];
+        let mut m = self.img.read(0);
+        let fresh = m[510] != 0x55 || m[511] != 0xAA;
         // some boot code bytes
         m[0] = 0xFA;
         m[1] = 0x33;
@@ -353,7 +362,7 @@ impl Fmt {
             m[o + 12..o + 16].copy_from_slice(&len.to_le_bytes());
         };
         put(&mut m, g.part_slot, if self.rng.chance(1, 2) { 0x80 } else { 0x00 }, g.part_type, g.part_start, g.part_len());
-        if g.neighbours {
+        if g.neighbours && fresh {
             // a foreign partition behind ours, and one in front when there is room
             let mut others: Vec<(u8, u32, u32)> = vec![(0x83, g.part_end(), 64)];
             if g.part_start > 40 {
@@ -638,6 +647,14 @@ impl Fmt {
     /// Allocate everything except `leave` clusters into FILLERn.BIN files in the root.
     /// `which`: 0 = leave the lowest free clusters, 1 = the highest, 2 = random ones.
     pub fn fill_leaving(&mut self, leave: u32, which: u32) {
+        // make sure the root can take the filler entries without growing afterwards
+        if self.dirs[0].start != 0 && self.dir_capacity(0) - self.dirs[0].used < 4 {
+            let c = self.alloc_chain(1, Alloc::Seq)[0];
+            let last = *self.dirs[0].chain.last().unwrap();
+            self.fat[last as usize] = c;
+            self.zero_cluster(c);
+            self.dirs[0].chain.push(c);
+        }
         let free: Vec<u32> = (2..self.g.clusters + 2).filter(|&c| self.fat[c as usize] == 0).collect();
         if free.len() as u32 <= leave {
             return;
